@@ -48,7 +48,7 @@ TOOL5A = dict(type="tool", spec_version="2.1", id=T5ID, created=T1, modified=T1,
 TOOL5B = dict(type="tool", spec_version="2.1", id=T5ID, created=T1, modified=T2, name="t5b")
 I1ID = "identity--e1d2f3a4-5b6c-11ea-8d7e-0123456789ab"      # UUIDv1-shaped id
 IDENT1 = dict(type="identity", spec_version="2.1", id=I1ID, created=T1, modified=T1, name="i1")
-UPID = "course-of-action--3F7F0C5F-5D54-4292-94EA-EC1E1952BE1A"     # upper-case hex digits (accepted by the library), the only id of its type directory
+UPID = "course-of-action--018F3C1E-7B2A-7ABC-8DEF-0123456789AB"     # upper-case hex digits AND a UUID version beyond 5 (v7; both accepted by the library for 2.1), the only id of its type directory
 COA_UP1 = dict(type="course-of-action", spec_version="2.1", id=UPID, created=T1, modified=T1, name="up1")
 COA_UP2 = dict(type="course-of-action", spec_version="2.1", id=UPID, created=T1, modified=T2, name="up2")
 RID = "x-verif-obj--" + U + "6"
@@ -281,7 +281,7 @@ def observe(store, part, what):
 
 def feature_of(id_):
     return {A: "versioned-sdo", SCO["id"]: "unversioned-sco", OLD20["id"]: "v20-sdo", MD["id"]: "marking-definition", XID: "unregistered-dict",
-            RID: "registered-custom", OLD20X["id"]: "v20-sdo-with-custom-property", U20ID: "unregistered-dict-without-spec_version", T5ID: "uuid5-id", I1ID: "uuid1-id", CU["id"]: "unversioned-unregistered-dict", UPID: "upper-case-hex-id", NCID: "dict-without-created"}.get(id_, "absent-id")
+            RID: "registered-custom", OLD20X["id"]: "v20-sdo-with-custom-property", U20ID: "unregistered-dict-without-spec_version", T5ID: "uuid5-id", I1ID: "uuid1-id", CU["id"]: "unversioned-unregistered-dict", UPID: "upper-case-hex-uuid7-id", NCID: "dict-without-created"}.get(id_, "absent-id")
 
 
 def compare(sname, obs, model, part, case, conflicted):
